@@ -22,7 +22,7 @@ import tomllib
 
 VERIF = os.path.dirname(os.path.dirname(os.path.abspath(__file__)))
 REPO = os.environ.get("VERIF_REPO", "/repo")
-CACHE = os.path.join(VERIF, ".cache")
+CACHE = os.environ.get("VERIF_CACHE") or os.path.join(VERIF, ".cache")
 RX = os.path.join(VERIF, "tools/rx/target/release/rx")
 KANI_FLAGS = ["-Z", "function-contracts", "-Z", "stubbing"]
 JOBS = int(os.environ.get("VERIF_JOBS", "12"))
